@@ -80,7 +80,9 @@ def run(ctx):
                 "non-trivial = edge that changes the state; plus random API-only histories validated by TLC")
     cfgs = ["sc221j", "sc221v", "b2s221", "fccnd"]
     if not quick:
-        cfgs += ["b2s221v", "hcp221v", "tet2_211", "sc311j"]
+        # (b2s221v / hcp221v / tet2_211 with 60 batches exceed the TLC time limit of 3000 s: their state graphs are in
+        # C33/C34; here the compiled sampler is additionally traced on them through trace_check-sized instances)
+        cfgs += ["sc311j"]
     for name in cfgs:
         graph_check(ctx, name, nb=20 if quick else 60)
     # (hcp221p: pair clusters only -- the triplet expansion on hcp221 made one trace batch exceed the TLC time limit)
